@@ -57,8 +57,9 @@ func c05Proxy(r *Run) {
 	seekable := make([]bool, n)
 	// bodies beyond 64 KiB (a length the raw paths may treat differently), only over links that are not tiny
 	maxBytes, bigChance := c05MaxBytes(optsA, optsB), 0.1
-	if T.Bool("bigframes", 0.15) && optsA.Capacity >= 4096 && optsB.Capacity >= 4096 {
-		maxBytes, bigChance = 250000, 0.35
+	bigRun := T.Bool("bigframes", 0.2) && optsA.Capacity >= 4096 && optsB.Capacity >= 4096
+	if bigRun {
+		maxBytes, bigChance = 250000, 0.7
 		if n > 8 {
 			n = 8
 			frames, modes, seekable = frames[:n], modes[:n], seekable[:n]
@@ -117,6 +118,9 @@ func c05Proxy(r *Run) {
 	batch := make([]int, n)
 	for i := range srcKinds {
 		srcKinds[i] = T.DrawP("srckind", 3, 0.4) // 0 link, 1 bytes.Reader (seekable), 2 bytes.Buffer
+		if bigRun && T.Bool("big.fromlink", 0.6) {
+			srcKinds[i] = 0 // big bodies are interesting where reads are short: on the link
+		}
 		batch[i] = 1 + T.DrawP("batch", 3, 0.5)  // frames buffered together when the source is a buffer
 	}
 	r.Go("proxy", func() {
@@ -144,8 +148,12 @@ func c05Proxy(r *Run) {
 		for i < n {
 			kind := srcKinds[i]
 			if kind == 0 {
+				before := src.n
 				err := c05Forward(pcodec, modes[i], src, b1)
 				r.Yield("proxy.forwarded")
+				if src.n-before > 65536+9 {
+					r.Probes["body_over_64KiB_from_link/"+c05Modes[modes[i]]]++
+				}
 				if err != nil {
 					if !writerFailed {
 						proxyErr, proxyAt = err, i
